@@ -164,6 +164,18 @@ pub fn format_comments(comments: &ChildTrivia, loc: CommentLocation, out: &mut P
 						p!(out, str(" "));
 					}
 					p!(out, str("*/") nl);
+				} else {
+					// A comment without text is still a comment of the input
+					if matches!(loc, CommentLocation::ItemInline) {
+						p!(out, str(" "));
+					}
+					p!(out, str(if doc { "/***/" } else { "/**/" }));
+					if matches!(
+						loc,
+						CommentLocation::AboveItem | CommentLocation::EndOfItems
+					) {
+						p!(out, nl);
+					}
 				}
 			}
 			// TODO: Keep common padding for multiple continous lines of single-line comments
